@@ -381,6 +381,7 @@ macro_rules! world_spec {
         $W:ident, $name:expr,
         archs = [$(($idx:expr, $A:ident, $field:ident)),* $(,)?],
         sites = [$(($sidx:expr, $S:ident, $info:expr)),* $(,)?]
+        $(, extra = { $($extra:tt)* })?
     ) => {
         static DRVS: &[&dyn ArchDrv<$W>] = &[$(&Drv::<$A>(std::marker::PhantomData)),*];
         static SITES: &[SiteInfo] = &[$($info),*];
@@ -434,6 +435,7 @@ macro_rules! world_spec {
                     _ => panic!("sim: bad archetype index"),
                 }
             }
+            $($($extra)*)?
             #[cfg(feature = "events")]
             fn w_created(&self) -> Result<Vec<Bits>, String> {
                 collect_events(self.iter_created())
@@ -547,7 +549,18 @@ pub mod wa {
             (4, S4, SiteInfo { name: "S4 |&EntityAny, &EntityDirectAny|", matches: &[0, 1, 2, 3, 4, 5], cols: &[&[], &[], &[], &[], &[], &[]], muts: &[], has_dir: true, other: None }),
             (5, S5, SiteInfo { name: "S5 |&EntityAny, &mut CompH|", matches: &[2, 3], cols: &[&[2], &[1]], muts: &[true], has_dir: false, other: Some(5) }),
             (6, S6, SiteInfo { name: "S6 |&Entity<_>, &CompZ|", matches: &[3, 5], cols: &[&[3], &[0]], muts: &[false], has_dir: false, other: Some(4) }),
-        ]
+        ],
+        extra = {
+            fn acc_double_use(&self, iter: bool, key: Option<Key>, k: &mut dyn FnMut()) -> Option<(usize, usize)> {
+                // ArchQ (index 1), column 0 (CompA), named twice in one borrow-mode query
+                if iter {
+                    ecs_iter_borrow!(self, |_e: &Entity<ArchQ>, _a: &CompA, _b: &mut CompA| { k(); });
+                } else if let Some(Key::A(any)) = key {
+                    ecs_find_borrow!(self, any, |_e: &Entity<ArchQ>, _a: &CompA, _b: &mut CompA| { k(); });
+                }
+                Some((1, 0))
+            }
+        }
     );
 }
 
